@@ -111,7 +111,8 @@ func (c *c01) checkMsg(m *wire.Msg, dotu bool, exp []byte, src string) {
 	}
 	// --- two-step Rread
 	if m.Type == wire.Rread {
-		extra := []int{0, 1, 100}[c.n%3]
+		// the initial count may exceed the final one by a little or by more than 16 and 20 bits (a short read at a large msize)
+		extra := []int{0, 1, 100, 65525, 70000, 1 << 20}[c.n%6]
 		fc2 := &go9p.Fcall{Buf: c.buf(len(exp) + extra)}
 		var rp2 any
 		var ierr error
